@@ -162,6 +162,7 @@ type dirObs struct {
 	SortErr  bool      `json:"sorterr"`
 	Cyc      [][]int64 `json:"cyc"`     // components listed by the Unorderable error, in listing order
 	CycByID  bool      `json:"cycbyid"` // every listed component is sorted by real id (documented)
+	ErrMsg   bool      `json:"errmsg"`  // the error value of Sort, if any, has a text (Unorderable.Error)
 	Stab     []int64   `json:"stab"`    // SortStabilized(g, nil)
 	StabCyc  [][]int64 `json:"stabcyc"`
 	StabR    []int64   `json:"stabr"` // SortStabilized(g, descending-id order)
@@ -171,13 +172,14 @@ type dirObs struct {
 	Roots    []rootObs `json:"roots"`
 }
 
-func sortObs(o *obs, name string, f func() ([]graph.Node, error), im *idmap) (s []int64, cyc [][]int64, isErr, byID bool) {
-	s, cyc, byID = []int64{}, [][]int64{}, true
+func sortObs(o *obs, name string, f func() ([]graph.Node, error), im *idmap) (s []int64, cyc [][]int64, isErr, byID, hasText bool) {
+	s, cyc, byID, hasText = []int64{}, [][]int64{}, true, true
 	o.call(name, func() {
 		nodes, err := f()
 		s = ids(nodes, im)
 		if err != nil {
 			isErr = true
+			hasText = err.Error() != "" // topo.Unorderable.Error (both of its forms: up to and above 10 nodes)
 			var uo topo.Unorderable
 			if errors.As(err, &uo) {
 				cyc = idsOfSets(uo, im)
@@ -198,10 +200,10 @@ func observeDir(g graph.Directed, n int, im *idmap, roots [][2]int64, doCycles b
 	o := &obs{}
 	d := dirObs{Sccs: [][]int64{}, Cycles: [][]int64{}, CycRaw: true, Roots: []rootObs{}}
 	o.call("TarjanSCC", func() { d.Sccs = idsOfSets(topo.TarjanSCC(g), im) })
-	d.Sort, d.Cyc, d.SortErr, d.CycByID = sortObs(o, "Sort", func() ([]graph.Node, error) { return topo.Sort(g) }, im)
+	d.Sort, d.Cyc, d.SortErr, d.CycByID, d.ErrMsg = sortObs(o, "Sort", func() ([]graph.Node, error) { return topo.Sort(g) }, im)
 	var e1, e2 bool
-	d.Stab, d.StabCyc, e1, _ = sortObs(o, "SortStabilized", func() ([]graph.Node, error) { return topo.SortStabilized(g, nil) }, im)
-	d.StabR, d.StabRCyc, e2, _ = sortObs(o, "SortStabilized/desc", func() ([]graph.Node, error) {
+	d.Stab, d.StabCyc, e1, _, _ = sortObs(o, "SortStabilized", func() ([]graph.Node, error) { return topo.SortStabilized(g, nil) }, im)
+	d.StabR, d.StabRCyc, e2, _, _ = sortObs(o, "SortStabilized/desc", func() ([]graph.Node, error) {
 		return topo.SortStabilized(g, func(ns []graph.Node) {
 			sort.Slice(ns, func(i, j int) bool { return ns[i].ID() > ns[j].ID() })
 		})
@@ -237,6 +239,30 @@ type colObs struct {
 	Col   [][2]int64 `json:"col"`
 	Err   string     `json:"err"`   // "" | "invalid-partial" | other text
 	Exact bool       `json:"exact"` // the routine claims the chromatic number
+	// coloring.Sets of the returned colouring: per colour the list <colour, members...> (model ids, in the order
+	// returned), and whether every member list was ascending by real id (documented)
+	Sets      [][]int64 `json:"sets"`
+	SetsByID  bool      `json:"setsbyid"`
+}
+
+// withSets fills in what coloring.Sets makes of the colouring c.
+func (co colObs) withSets(c map[int64]int, im *idmap) colObs {
+	co.Sets, co.SetsByID = [][]int64{}, true
+	if c == nil {
+		return co
+	}
+	for colour, members := range coloring.Sets(c) {
+		if !sort.SliceIsSorted(members, func(i, j int) bool { return members[i] < members[j] }) {
+			co.SetsByID = false
+		}
+		row := []int64{int64(colour)}
+		for _, id := range members {
+			row = append(row, im.model(id))
+		}
+		co.Sets = append(co.Sets, row)
+	}
+	sort.Slice(co.Sets, func(i, j int) bool { return co.Sets[i][0] < co.Sets[j][0] })
+	return co
 }
 
 type forestObs struct {
@@ -406,7 +432,7 @@ func observeUnd(g graph.Undirected, n int, im *idmap, roots []int64, op undOpts)
 	col := func(alg string, exact bool, f func() (int, map[int64]int, error)) {
 		o.call(alg, func() {
 			k, c, err := f()
-			u.Cols = append(u.Cols, colObs{Alg: alg, K: k, Col: colPairs(c, im), Err: errText(err), Exact: exact && err == nil})
+			u.Cols = append(u.Cols, colObs{Alg: alg, K: k, Col: colPairs(c, im), Err: errText(err), Exact: exact && err == nil}.withSets(c, im))
 		})
 	}
 	col("Dsatur", false, func() (int, map[int64]int, error) { return coloring.Dsatur(g, nil) })
@@ -443,7 +469,7 @@ func observePartial(g graph.Undirected, im *idmap, part map[int64]int, seed uint
 		o.call(alg, func() {
 			p := cp()
 			k, c, err := f(p)
-			co := colObs{Alg: alg, K: k, Col: colPairs(c, im), Err: errText(err)}
+			co := colObs{Alg: alg, K: k, Col: colPairs(c, im), Err: errText(err)}.withSets(c, im)
 			out = append(out, co)
 		})
 	}
